@@ -109,11 +109,11 @@ Theorem issue_waiting_has_no_connector cfg u p s k t s1 s2 :
   nth u (g_uris cfg) None = Some k -> g_pool cfg = true ->
   key_insert k (set_woken (woken s ++ [false]) s) = (t, s1) ->
   pool_pop (g_timeout cfg) t s1 = (None, s2) ->
-  p_marker (get_tok s2 t) = true ->
+  (exists o, p_marker (get_tok s2 t) = Some o) ->
   exists s3, nth_error (dials (do_issue cfg u p s)) (List.length (dials s3)) = Some (mkDial DGone p k (Some k) None)
              /\ dials s3 = dials s2.
 Proof.
-  intros Hu Hp Hk Hpop Hm. unfold do_issue. rewrite Hu, Hp. cbn [negb]. rewrite Hk, Hpop. cbv zeta. rewrite Hm.
+  intros Hu Hp Hk Hpop [o Hm]. unfold do_issue. rewrite Hu, Hp. cbn [negb]. rewrite Hk, Hpop. cbv zeta. rewrite Hm.
   exists (upd_tok t (fun q => set_waiting (p_waiting q ++ [(List.length (reqs s), true)]) q) s2).
   split; [|destruct t; reflexivity].
   cbn [dials set_dials set_reqs]. rewrite nth_error_app2, Nat.sub_diag by lia. reflexivity.
